@@ -8,7 +8,8 @@
 (*   strict  (cfg WireTrace_strict): the record is what Wire.tla computes   *)
 (*           (layout tables as oracle for the bytes; either setting of the  *)
 (*           PlaceholderTypedAsCookie switch explains an NTS encoding)      *)
-(* Record kinds (field k): lay, layb, layp, lvm, nts, sck, eck, crypt.      *)
+(* Record kinds (field k): lay, layb, layp, lvm, nts, sck, eck, crypt, and   *)
+(* hist (a history of codec calls, WireHist.tla).                           *)
 (***************************************************************************)
 EXTENDS Integers, Sequences, FiniteSets, TLC, Json
 
@@ -75,6 +76,25 @@ SameCk(d, x) == d.err = "nil" /\ d.n = x.n /\ d.x = x.x /\ d.y = x.y
 RSck == (Is("sck") \/ Is("eck")) => SameCk(R.dec, R["in"])
 RCrypt == Is("crypt") => R.e.n = R.keyid /\ R.edec_ok /\ SameCk(R.out, R["in"])
 
+\* histories of calls (Wire.tla property section (f), WireHist.tla): calls[i] = [th, op, cd, src, v,
+\* val (the protocol value), err, ret (the result copied when the call returned), end (the same
+\* result copied at the end of the history), rterr / rt (enc: what the real decoder makes of the held
+\* encoding at the end of the history; dec: the value to judge is end itself), reenc (fixed layouts: rt
+\* encoded again)]
+HNorm(cd, x) == IF cd \in WF!Msgs THEN [f \in WF!FieldNames(cd) |-> x[f]] ELSE x
+\* the round-trip clauses on the end-of-history values
+RHistRoundTrip == Is("hist") =>
+   \A i \in DOMAIN R.calls :
+      LET x == R.calls[i]
+          val == HNorm(x.cd, x.val)
+      IN /\ x.err = "nil" /\ x.rterr = "nil"
+         /\ WF!HValueIs(x.cd, val, HNorm(x.cd, IF x.op = "enc" THEN x.rt ELSE x.end))
+         /\ (x.op = "enc" /\ x.cd \in WF!Msgs /\ WF!Canonical(x.cd, val)) =>
+               Len(x.end) = WF!DeclLen(x.cd, WF!Ssds(x.cd, val)) /\ x.reenc = x.end
+         /\ (x.op = "enc" /\ x.cd = "nts") => WF!WalkAligned(x.end, 0)
+\* a result is at the end of the history what it was when its call returned
+RResultsStable == Is("hist") => \A i \in DOMAIN R.calls : R.calls[i].err = "nil" => R.calls[i].end = R.calls[i].ret
+
 \* ----------------------------------------------------------------- strict
 ValsOf(m, rec) == [f \in WF!FieldNames(m) |-> rec[f]]
 SLayBytes == Is("lay") =>
@@ -106,4 +126,27 @@ SNtsDec == (Is("nts") /\ R.encerr = "nil") =>
 SSck == /\ Is("sck") => R.enc = WF!SckEncode(R["in"])
         /\ Is("eck") => R.enc = WF!EckEncode(R["in"])
         /\ Is("crypt") => R.e.xl = 16 /\ R.e.yl = 16 + Len(WF!SckEncode(R["in"]))
+\* histories: the schedule is one of WireHist.tla (every call begins once and then ends once, the calls
+\* of a thread one after the other in plan order, a decode of an earlier result after that call's end);
+\* the results of the codecs without randomness are those Wire.tla computes
+HPos(e, i) == CHOOSE p \in DOMAIN R.sched : R.sched[p].e = e /\ R.sched[p].i = i
+SHistSched == Is("hist") =>
+   LET n == Len(R.calls)
+   IN /\ Len(R.sched) = 2 * n
+      /\ \A i \in 1 .. n : \A e \in {"B", "E"} : Cardinality({p \in DOMAIN R.sched : R.sched[p].e = e /\ R.sched[p].i = i}) = 1
+      /\ \A i \in 1 .. n : HPos("B", i) < HPos("E", i)
+      /\ \A i, j \in 1 .. n : (i < j /\ R.calls[i].th = R.calls[j].th) => HPos("E", i) < HPos("B", j)
+      /\ \A j \in 1 .. n : R.calls[j].src # 0 =>
+            /\ R.calls[j].src < j /\ R.calls[j].op = "dec"
+            /\ R.calls[R.calls[j].src].op = "enc" /\ R.calls[R.calls[j].src].cd = R.calls[j].cd
+            /\ HPos("E", R.calls[j].src) < HPos("B", j)
+HDeterministic == WF!Msgs \cup {"sck", "eck", "ke"}
+HPlain(cd, x) == IF cd \in {"sck", "eck"} THEN [n |-> x.n, x |-> x.x, y |-> x.y] ELSE x
+SHistValues == Is("hist") =>
+   \A i \in DOMAIN R.calls :
+      LET x == R.calls[i]
+          val == HPlain(x.cd, HNorm(x.cd, x.val))
+      IN (x.err = "nil" /\ x.cd \in HDeterministic /\ (x.cd \in WF!Msgs => WF!Canonical(x.cd, val))) =>
+            IF x.op = "enc" THEN x.ret = WF!HEncode(x.cd, val)
+            ELSE HNorm(x.cd, x.ret) = WF!HDecode(x.cd, WF!HEncode(x.cd, val))
 =============================================================================
